@@ -125,6 +125,9 @@ INTERACTIVE = [
                        ("member", ['zq = "s"; %s = zq;' % _w, '%s.concat("x");' % _w, "print %s;" % _w]),
                        ("spaced-assign", ["%s   =   5;" % _w, "print %s;" % _w]), ("chained", ["%s = 1, print %s;" % (_w, _w)]))
 ] + [
+    # physical lines longer than the reader's buffer
+    ("i-long-line-%d" % _l, ['x = "' + "a" * _l + '";', "print strlen(x);", 'y = 1 + ' + " " * _l + '2; print y;']) for _l in (900, 1015, 1016, 1017, 1018, 1019, 1020, 1021, 1022, 1023, 1024, 2040, 2046, 3100)
+] + [
     ("i-begin-error", ["begin", "for i in 1 to 2 loop", "raise inner;", "end loop;", "exception when others then", 'print "caught";', "end;", "for k in 1 to 2 loop", "print k;", "end loop;"]),
 ]
 
@@ -303,7 +306,7 @@ def run(tier):
                 elif mode == "stdin":
                     argv, stdin, outfile = ["-"] + list(av), tb(text), None
                 else:
-                    outfile = os.path.join(d, "o-%d-%d.txt" % (pi, ai))
+                    outfile = os.path.join(d, "o=%d=%d.txt" % (pi, ai))      # the value of an option is everything after its own equal sign
                     argv, stdin = ["--out=" + outfile, path] + list(av), None
                 jobs.append((exe, env, argv, stdin, outfile))
                 meta.append((pi, ai, mode))
@@ -388,7 +391,7 @@ def run(tier):
     eref = run_batch(ecases)
     # three ways to hand over the same expression: one word per token, one word in all, and with the value sent to a file
     eforms = [("words", lambda e: (["-e"] + e.split(" "), None)), ("one-word", lambda e: (["-e", e], None)),
-              ("out-file", lambda e: (["--out=" + os.path.join(d, "e-out.txt"), "-e"] + e.split(" "), os.path.join(d, "e-out.txt")))]
+              ("out-file", lambda e: (["--out=" + os.path.join(d, "e=out=.txt"), "-e"] + e.split(" "), os.path.join(d, "e=out=.txt")))]
     for fname, mk in eforms[1:]:
         for e, rr in zip(EXPRS, eref):
             argv, outfile = mk(e)
